@@ -609,6 +609,16 @@ pub fn run(ctx: Ctx, mode: Mode) -> i32 {
             };
             for v in &variants {
                 st = st.merge(check_spec(&ctx, mode, v));
+                // the same specification with `%epp` declarations (a display string is no part of
+                // the specification: every cell, list and count must come out the same): on every
+                // token, and on the first token of the first precedence line only
+                if let Some((_, ts)) = v.precs.first() {
+                    for epp in [(0..v.ntoks).collect::<Vec<usize>>(), vec![ts[0]]] {
+                        let mut w = v.clone();
+                        w.epp = epp;
+                        st = st.merge(check_spec(&ctx, mode, &w));
+                    }
+                }
             }
             st
         })
